@@ -276,6 +276,7 @@ theorem eval_stable (cfg : Cfg) (hcap : cfg.capture = false) :
     | put col rel n e => simp [declOnly] at hp
     | sow col n e => simp [declOnly] at hp
     | perturb col n e => simp [declOnly] at hp
+    | nested body m V a => simp [declOnly] at hp
     | child cls name body =>
       simp only [declOnly] at hp
       simp only [eval] at h
